@@ -96,8 +96,18 @@ def check_history(case, outs, res, nblocks, singletons=()):
                 if x not in 'CHU':
                     pr = parse_rec(x)
                     remote.setdefault(pr['key'], []).append(pr)
+            named_finished = {k2 for k2, xs in remote.items() for x in xs if False}
+            finished_ids = set()
+            cur_list = None
+            for x in w[1:]:
+                if x in ('C', 'H', 'U'):
+                    cur_list = x
+                elif cur_list in ('C', 'H'):
+                    finished_ids.add(x.split('|')[0])
             for key, r in cur.items():
-                if key in prev and memory:
+                # without memory a run may legitimately be removed and re-created by one message that also names it
+                # finished; every other change of a run that exists before and after must come from a record strictly ahead
+                if key in prev and (memory or (key[2] not in finished_ids and key[:2] not in singletons)):
                     o = prev[key]
                     if (r['idx'], r['groups']) != (o['idx'], o['groups']):
                         pool = remote.get(key, [])
